@@ -35,6 +35,9 @@ def login_script(rng, cfg, scope, tag):
     pw = pw_class(rng, cfg, scope, name, tag)
     if rng.random() < 0.08:
         pw = list(("Zx9-p%s-" % tag).encode()) + [rng.choice([0xe4, 0xf6, 0x80, 0xff])] + list(b"ss")      # a password with an octet above 0x7f
+    elif rng.random() < 0.08:
+        # a long pass phrase (past 64 and past bcrypt's 72 octets), a very short one, one with blanks and a line break
+        pw = rng.choice(["Lp-%s-" % tag + "correct horse battery staple " * rng.choice([2, 3, 7]), "q%s" % tag[:3], "two words\n%s" % tag, " lead-%s" % tag])
     k = rng.random()
     if k < 0.3:
         minor = 1 if rng.random() < 0.8 else 0
@@ -66,6 +69,21 @@ def login_script(rng, cfg, scope, tag):
     # PAP / CHAP-ish odd starts carrying a password in data
     p = start(name, pw, atype=rng.choice([2, 3, 5, 6]), action=rng.choice([1, 1, 2, 4]), service=rng.choice([1, 2]))
     return [(p, rng.randint(0, 1), [pw] if pw else [])]
+
+
+def start_sweep_pw(rng, cfg, scope, tag):
+    """STARTs of every action x type x service x minor version whose data field (and then the user message) carries a
+    pass phrase of varied shape: long, very short, with blanks, with a line break, with octets above 0x7f"""
+    out = []
+    for action in (1, 2, 4):
+        for atype in (1, 2, 3, 4, 5, 6):
+            for service in (1, 2, 9):
+                for minor in (0, 1):
+                    pw = rng.choice(["Lp-%s-" % tag + "correct horse battery staple " * rng.choice([2, 3, 7]), "q%s" % tag[:3], "two words\n%s" % tag,
+                                     pw_of(cfg, scope, "alice"), list(("Zx9-p%s-" % tag).encode()) + [0xe4, 0xff] + list(b"ss")])
+                    s0 = start("alice", pw, atype=atype, action=action, service=service)
+                    out.append([(s0, minor, [pw]), (cont(pw), minor, [pw])])
+    return out
 
 
 def start_sweep(cfg, scope, tag):
@@ -654,6 +672,14 @@ def collect(ctx, prop):
             sw = sw[:240]
         for i, sc_ in enumerate(sw):
             scen.append({"id": "c10sweep-%d" % i, "cfg": cfg0, "conns": [{"c": 1, "addr": "10.1.0.5"}], "steps": session_steps(1, 0, sc_, fl=1), "iso": False, "log": False})
+    if prop == "C18":
+        cfg0 = base_cfg(rng, tag)
+        sw = start_sweep_pw(rng, cfg0, "s1", tag)
+        if quick:
+            rng.shuffle(sw)
+            sw = sw[:60]
+        for i, sc_ in enumerate(sw):
+            scen.append({"id": "c18sweep-%d" % i, "cfg": cfg0, "conns": [{"c": 1, "addr": "10.1.0.5"}], "steps": session_steps(1, 0, sc_, fl=rng.choice([0, 1])), "iso": False, "log": True})
     mcinfo = None
     if prop in ("C07", "C09", "C10", "C14", "C18"):
         r0, mcs, mctotal = mc_ref_scenarios(ctx, rng, prop, 600 if quick else 20000)
